@@ -79,6 +79,9 @@ var c14Differential = []struct {
 	{"SELECT d.id AS id FROM (SELECT id, %Q%fx(1, a) AS v FROM t) d WHERE d.v IN (1000, 1020)", false},
 	{"WITH c AS (SELECT id, %Q%fx(1, a) AS v FROM t) SELECT id FROM c WHERE v >= 1010", false},
 	{"WITH c AS (SELECT %Q%fx(1, a) AS v FROM t) SELECT v, COUNT(*) AS n FROM c GROUP BY v", false},
+	// the fused row holds the slot of an AWAIT around the call's own slot
+	{"SELECT id, FUSE((SELECT AWAIT(%Q%fx(1, a)) AS v FROM dual)) FROM t", false},
+	{"SELECT id, FUSE((SELECT AWAIT(%Q%fx(1, a)) AS v, id AS w FROM dual)) AS p FROM t", false},
 }
 
 // genC14FailingRow: a synchronous step fails on some row while ASYNC/SPINASYNC calls of earlier rows (and items) are
@@ -87,7 +90,11 @@ func genC14FailingRow(t *rapid.T) *Bundle {
 	n := rapid.IntRange(2, 6).Draw(t, "nrows")
 	rows := []any{}
 	for i := 0; i < n; i++ {
-		rows = append(rows, map[string]any{"id": float64(i + 1), "a": float64(rapid.IntRange(0, 5).Draw(t, "a") * 10), "n": []any{map[string]any{"v": float64(i)}}})
+		rows = append(rows, map[string]any{"id": float64(i + 1), "a": float64(rapid.IntRange(0, 5).Draw(t, "a") * 10), "n": []any{map[string]any{"v": float64(i)}, map[string]any{"v": float64(i + 10)}, map[string]any{"v": float64(i + 20)}}})
+	}
+	grid := []any{}
+	for i := 0; i < len(rows); i += 3 {
+		grid = append(grid, append([]any{}, rows[i:min(i+3, len(rows))]...))
 	}
 	qual := rapid.SampledFrom([]string{"ASYNC", "SPINASYNC"}).Draw(t, "fr_qual")
 	alias := ""
@@ -100,11 +107,16 @@ func genC14FailingRow(t *rapid.T) *Bundle {
 		"SELECT id, %s.fx(1, a)%s FROM t WHERE fid(2, id) > 0",
 		"SELECT id, (SELECT %s.fx(1, v)%s FROM n) AS sub, fid(2, a) AS b FROM t",
 		"WITH c AS (SELECT id, %s.fx(1, a)%s, fid(2, a) AS b FROM t) SELECT * FROM c",
+		// the row that fails is a row of a nested evaluation, which has calls of its own in flight
+		"SELECT id, (SELECT %s.fx(1, v)%s, fid(2, v) AS b FROM n) AS sub FROM t",
+		"SELECT id FROM t WHERE EXISTS (SELECT %s.fx(1, v)%s, fid(2, v) AS b FROM n)",
+		"SELECT id, %s.fx(1, a)%s, fid(2, a) AS b FROM g",
+		"SELECT id, (SELECT (SELECT %s.fx(1, v)%s, fid(2, v) AS b FROM n) AS s2 FROM dual) AS s1 FROM t",
 	}).Draw(t, "fr_shape"), qual, alias)
 	exp := c14Expect{Place: "failing_row", Sites: []c14Site{{ID: 1, Kind: strings.ToLower(qual)}}}
-	c := oneClientCase("C14", drawSim(t, ""), map[string]any{"t": rows}, casefmt.Op{Doc: 0, Vars: -1, Query: q})
+	c := oneClientCase("C14", drawSim(t, ""), map[string]any{"t": rows, "g": grid}, casefmt.Op{Doc: 0, Vars: -1, Query: q})
 	c.Stubs.Lat = drawLatencies(t, []int{1}, n)
-	c.Stubs.Faults = []casefmt.Fault{{ID: 2, K: rapid.IntRange(1, n).Draw(t, "fr_k"), Kind: rapid.SampledFrom([]string{"error", "panic"}).Draw(t, "fr_kind")}}
+	c.Stubs.Faults = []casefmt.Fault{{ID: 2, K: rapid.IntRange(1, 2*n).Draw(t, "fr_k"), Kind: rapid.SampledFrom([]string{"error", "panic", "panic_str"}).Draw(t, "fr_kind")}}
 	return &Bundle{Prop: "C14", Kind: "failing_row", Case: c, Expect: mustJSON(exp), Tags: []string{"place:failing_row"}}
 }
 
@@ -120,7 +132,12 @@ func evalC14FailingRow(b *Bundle, r *Runner) []*Violation {
 	}
 	started, late := 0, 0
 	for _, c := range o.Calls {
-		if c.ID != 1 || c.SeqStart > op.SeqReturn {
+		if c.ID != 1 {
+			continue
+		}
+		if c.SeqStart > op.SeqReturn {
+			// (a call that only starts after the failure has been reported is as late as one can be)
+			late++
 			continue
 		}
 		started++
@@ -129,7 +146,7 @@ func evalC14FailingRow(b *Bundle, r *Runner) []*Violation {
 		}
 	}
 	if late > 0 {
-		return []*Violation{mkViolation(b, "INCOMPLETE_AT_RETURN", "after_failure", fmt.Sprintf("%s: Exec reported %s%s%s while %d of the %d call(s) it had started were still running", b.Case.Clients[0].Ops[0].Query, op.NewErr, op.ExecErr, op.Panic, late, started), o)}
+		return []*Violation{mkViolation(b, "INCOMPLETE_AT_RETURN", "after_failure", fmt.Sprintf("%s: Exec reported %s%s%s while %d call(s) of the evaluation were still running or yet to start (%d started before the return)", b.Case.Clients[0].Ops[0].Query, op.NewErr, op.ExecErr, op.Panic, late, started), o)}
 	}
 	if started > 0 {
 		r.Stats.probe("failing_row_calls_in_flight_checked")
